@@ -199,11 +199,24 @@ func Ecs(ip string, source int, scope int) *dns.EDNS0_SUBNET {
 	return e
 }
 
+// DeclaredTypes maps the packed lower-case owner name to the record types declared at it.
+func DeclaredTypes(g *Gen) map[string][]int {
+	m := map[string][]int{}
+	for _, l := range g.Lines {
+		for _, rc := range l.Recs {
+			k := string(hlib.Unints(rc.Owner))
+			m[k] = append(m[k], rc.Type)
+		}
+	}
+	return m
+}
+
 // GenQueries draws the query list for a generated file.
 func GenQueries(g *Gen, n int) []Query {
 	r := g.R
 	var qs []Query
-	types := []int{1, 28, 2, 6, 15, 16, 5, 12, 33, 255, 43, 65280, 4000}
+	types := []int{1, 28, 2, 6, 15, 16, 5, 12, 33, 255, 43, 65280, 4000, 64, 65}
+	declared := DeclaredTypes(g)
 	pickName := func() (Name, string) {
 		base := Name{}
 		if len(g.Names) > 0 {
@@ -312,6 +325,13 @@ func GenQueries(g *Gen, n int) []Query {
 		if r.Chance(1, 2) {
 			q.Type = []int{1, 1, 28, 255, 2, 16}[r.Intn(6)]
 		}
+		if ts := declared[string(name.Lower().Pack())]; len(ts) > 0 && r.Chance(1, 3) {
+			// a type that is declared at this very name (every record type gets asked), or ANY
+			q.Type = ts[r.Intn(len(ts))]
+			if r.Chance(1, 4) {
+				q.Type = 255
+			}
+		}
 		if r.Chance(1, 25) {
 			q.Class = []int{3, 255, 4}[r.Intn(3)]
 		}
@@ -329,6 +349,27 @@ func GenQueries(g *Gen, n int) []Query {
 			continue
 		}
 		qs = append(qs, Query{Wire: wire, Client: client, Max: 1 + r.Pick([]int{5, 2, 2}), Class_: cls})
+	}
+	// every service-binding record, and a quarter of the other declared records, is asked for by
+	// its own name and type (or ANY) once: each record type is served in every file that has it
+	for _, l := range g.Lines {
+		for _, rc := range l.Recs {
+			if !(rc.Type == 64 || rc.Type == 65 || r.Chance(1, 4)) || rc.Wild {
+				continue
+			}
+			q := QSpec{Name: unpackName(hlib.Unints(rc.Owner)), Type: rc.Type, Class: 1, ID: r.Intn(65536), Flags: r.Intn(2)}
+			if r.Chance(1, 4) {
+				q.Type = 255
+			}
+			if r.Chance(1, 3) {
+				q.Edns, q.Size = true, 1232
+			}
+			wire, err := PackQuery(q)
+			if err != nil {
+				continue
+			}
+			qs = append(qs, Query{Wire: wire, Client: Clients[r.Intn(len(Clients))], Max: 1 + r.Pick([]int{5, 2, 2}), Class_: "declared-type"})
+		}
 	}
 	return qs
 }
